@@ -37,8 +37,9 @@ def _all_keys(kind):
 class Setup:
     """one static configuration of a single-network loss"""
 
-    def __init__(self, kind, B, k, m, wkind, on, d=1, tag="", share=None):
+    def __init__(self, kind, B, k, m, wkind, on, d=1, tag="", share=None, obs_param=False):
         self.kind, self.B, self.k, self.m, self.wkind, self.on, self.d = kind, B, k, m, wkind, set(on), d
+        self.obs_param = obs_param
         self.din = {"ODE": 1, "statio": d, "nonstatio": 1 + d}[kind]
         eqt = {"ODE": "ODE", "statio": "statio_PDE", "nonstatio": "nonstatio_PDE"}[kind]
         self.S = 2
@@ -55,7 +56,7 @@ class Setup:
         inp = [Inp("th", (1,)), Inp("a", ()), Inp("w", (self.k,) if self.wkind == "vec" else ()),
                Inp("wo", ()), Inp("pts", (B,) if self.kind == "ODE" else (B, din))]
         inp += [Inp("u0", (m,)), Inp("t0", ())]
-        inp += [Inp("obs_in", (B, din)), Inp("obs_val", (B, m))]
+        inp += [Inp("obs_in", (B, din)), Inp("obs_val", (B, m)), Inp("acol", (B, 1))]
         if self.kind != "ODE":
             inp += [Inp("ns", (self.S, d)), Inp("L", (), "pos")]
         return inp
@@ -100,7 +101,8 @@ class Setup:
                 batch = PDENonStatioBatch(times_x_inside_batch=a["pts"], times_x_border_batch=border)
         if "observations" in on:
             batch = eqx.tree_at(lambda b: b.obs_batch_dict, batch,
-                                {"pinn_in": a["obs_in"], "val": a["obs_val"], "eq_params": {}},
+                                {"pinn_in": a["obs_in"], "val": a["obs_val"],
+                                 "eq_params": {"a": a["acol"]} if self.obs_param else {}},
                                 is_leaf=lambda x: x is None)
         return loss, params, batch
 
@@ -120,11 +122,11 @@ def _as_dict(names, args):
     return dict(zip(names, args))
 
 
-def evaluate_ob(kind, B, k, m, wkind, on, d=1, via_call=False):
+def evaluate_ob(kind, B, k, m, wkind, on, d=1, via_call=False, obs_param=False):
     on = tuple(sorted(on))
-    tag = f"[{kind},B={B},k={k},m={m},w={wkind},d={d},on={'+'.join(on) or 'none'}]"
+    tag = f"[{kind},B={B},k={k},m={m},w={wkind},d={d},on={'+'.join(on) or 'none'}{',observed_param' if obs_param else ''}]"
     def build():
-        S = Setup(kind, B, k, m, wkind, on, d)
+        S = Setup(kind, B, k, m, wkind, on, d, obs_param=obs_param)
         names = [i.name for i in S.inputs()]
         off = [t for t in _all_keys(kind) if t not in on]
         def fn(*args):
@@ -200,6 +202,8 @@ def obligations(tier):
                 obs.append(evaluate_ob(kind, B, k, 1, wkind, ("dyn_loss",)))
         obs.append(evaluate_ob(kind, 2, 2, 2, "scalar", ("dyn_loss",)))
         obs.append(evaluate_ob(kind, 2, 1, 1, "scalar", terms, via_call=True))
+        # the dynamic term uses the caller's parameters even when the observations carry observed parameters
+        obs.append(evaluate_ob(kind, 2, 2, 1, "scalar", ("dyn_loss", "observations"), obs_param=True))
         if kind != "ODE":
             obs.append(evaluate_ob(kind, 2, 2, 1, "vec", ("dyn_loss",), d=2))
         for which in ("linear_in_weight", "permutation_invariant", "mean_of_halves"):
